@@ -1068,6 +1068,29 @@ namespace
                 Ev("ret").i("id", id).s("r", r).i("h", h).i("b", blk).i("off", off).u("len", n * sz).u(
                     "mis", p && al ? reinterpret_cast<std::uintptr_t>(p) % al : 0).i("fn0", f0).i("fn1", c.pool_free(sz)).i("bad", 0);
             }
+            else if (op == "tdf")
+            {
+                // composable release of memory nobody in the composition handed out (a block of the harness' own)
+                if (!c.composable())
+                    continue;
+                static char* foreign = nullptr;
+                if (!foreign)
+                {
+                    std::size_t gap;
+                    foreign = world().take(512, 64, gap);
+                    world().add_block(foreign, 512, 64, -2, false, gap);
+                }
+                bool        array = cmd.arg(0) != 0;
+                std::size_t n = array ? 2 : 1, sz = static_cast<std::size_t>(cmd.arg(1, 16)), al = 8;
+                int         id = ++call;
+                Ev("call").i("id", id).s("op", array ? "tdfa" : "tdfn").u("n", n).u("sz", sz).u("al", al).i("h", -1);
+                bool        res = false;
+                std::string r   = classify([&] { res = array ? c.tda(foreign + 64, n, sz, al) : c.tdn(foreign + 64, sz, al); });
+                if (r == "ok")
+                    r = res ? "true" : "false";
+                Ev("ret").i("id", id).s("r", r).i("h", -1).i("b", -1).i("off", 0).u("len", 0).u("mis", 0).i("fn0", -1).i(
+                    "fn1", -1).i("bad", 0);
+            }
             else if (op == "d" || op == "td")
             {
                 if (live.empty())
